@@ -156,6 +156,7 @@ var preludeAxioms = []ctxFact{
 	{[]string{"addr_of"}, "(= (addr_of nil) #x0000000000000000)"},
 	{[]string{"textref"}, "(not (= textref nil))"},
 	{[]string{"textref"}, "(not (= textref nilarr))"},
+	{[]string{"textref"}, "(alive0 textref)"},
 }
 
 // query assembles prelude + the declarations and facts in the cone of
